@@ -251,22 +251,26 @@ def oracle(prev, cur, pats):
         # the object stays, but it is (or becomes) a symbolic link: retype link <-> file, re-spelled target
         a, b = L0.get(k), L1.get(k)
         return a is not None and b is not None and (a[0] == "l" or b[0] == "l")
-    def beside_dangling_link(k):
-        par = k.rsplit("/", 1)[0] if "/" in k else ""
-        for R in (R0, R1):
-            for q, v in R.items():
-                if v == "missing" and (q.rsplit("/", 1)[0] if "/" in q else "") == par:
-                    return True
-        return False
     def parent_unchanged(k):
         par = k.rsplit("/", 1)[0] if "/" in k else ""
         return par in L0 and L0.get(par) == L1.get(par)
+    dangling_dirs = set()
+    for R in (prev[1], cur[1]):
+        for q, v in R.items():
+            if v == "missing":
+                dangling_dirs.add(q.rsplit("/", 1)[0] if "/" in q else "")
+    def beneath_dangling_link(k):
+        # some directory on the way down to k holds an entry whose stat fails
+        parts = k.split("/")
+        return any("/".join(parts[:j]) in dangling_dirs for j in range(len(parts)))
     hints["mode_only"] = bool(D) and all(only_mode(k) for k in D)
     hints["links_only"] = bool(D) and all(involves_link(k) for k in D)
     hints["shape_links_only"] = bool(SD) and all(involves_link(k) for k in SD)
     added_removed = [k for k in D if (k in L0) != (k in L1)]
     hints["stale_listing"] = bool(pats) and any(parent_unchanged(k) for k in added_removed)
-    hints["truncated_listing"] = bool(pats) and bool(D) and any(beside_dangling_link(k) for k in added_removed)
+    hints["truncated_listing"] = bool(pats) and any(beneath_dangling_link(k) for k in D)
+    hints["stale_parents"] = sorted(set((k.rsplit("/", 1)[0] if "/" in k else "") for k in added_removed if parent_unchanged(k))) if pats else []
+    hints["root_changed"] = L0.get("") != L1.get("")
     return must_T, must_S, hints
 
 def missed_key(cmd, hints):
@@ -275,17 +279,17 @@ def missed_key(cmd, hints):
             return "tree-misses-mode-change"
         if hints["links_only"]:
             return "symlink-seen-through-tree"
-        if hints["stale_listing"]:
-            return "filtered-listing-stale-tree"
         if hints["truncated_listing"]:
             return "filtered-listing-truncated-tree"
+        if hints["stale_listing"]:
+            return "filtered-listing-stale-tree"
         return "tree-missed-change"
     if hints["shape_links_only"]:
         return "symlink-seen-through-structure"
-    if hints["stale_listing"]:
-        return "filtered-listing-stale-structure"
     if hints["truncated_listing"]:
         return "filtered-listing-truncated-structure"
+    if hints["stale_listing"]:
+        return "filtered-listing-stale-structure"
     return "structure-missed-change"
 
 # ------------------------------------------------------------------ generation
@@ -572,9 +576,19 @@ def judge(chk, sc, records, idx):
     if r0["rc"] != 0 or not (r0["ranT"] and r0["ranS"]):
         chk.violation("initial-build", "the first build failed or did not run both commands (rc=%s)" % r0["rc"], rp(r0), found_input=True, broken="c12 harness expectation")
         return 0
+    stale_dirs = set()      # directories whose stored filtered listing is known to be out of date (finding D3)
     for rec in records[1:]:
         unlisted = False
         fam = sc.get("family", "core")
+        h = rec["hints"]
+        stale_dirs -= set(h["changed"])
+        if h["root_changed"]:
+            stale_dirs.discard("")
+        stale_dirs |= set(h["stale_parents"])
+        def under_stale(k):
+            parts = k.split("/")
+            return any("/".join(parts[:j]) in stale_dirs for j in range(len(parts)))
+        h["stale_listing"] = h["stale_listing"] or (bool(sc["pats"]) and any(under_stale(k) for k in h["changed"]))
         key = (fam, bool(sc["pats"]), tuple(rec["labels"]), rec["ranT"], rec["ranS"])
         chk.count(key if (rec["must_T"] or rec["must_S"]) else None)
         if rec["rc"] != 0:
@@ -616,6 +630,12 @@ def corpus():
         dict(labels=["add beneath the link target"], ops=[dict(op="add", path="tree/new", spec=f(), dir_t=T0 + 902 * STEP_NS)]),
         dict(labels=["remove the link, directory mtime restored"], ops=[dict(op="rm", path="tree2/l", dir="keep")]),
         dict(labels=["nothing"], ops=[])]))
+    # D6 (fixed e9065fb): a dangling link in a directory listed with patterns ended the listing
+    out.append(dict(name="dangling-link-filtered", family="core", pats=["*.tmp"], init=d(("b.txt", dict(k="l", to="nowhere")), ("c d", f()), ("sub", d(("l2", dict(k="l", to="nowhere")), ("k", f())))), steps=[
+        dict(labels=["add-file"], ops=[dict(op="add", path="tree/new", spec=f(), dir_t=T0 + 910 * STEP_NS)]),
+        dict(labels=["mv"], ops=[dict(op="mv", path="tree/c d", dst="tree/a", dir_t=T0 + 911 * STEP_NS)]),
+        dict(labels=["content beside a dangling link"], ops=[dict(op="write", path="tree/sub/k", data="changed", t=T0 + 912 * STEP_NS)]),
+        dict(labels=["rm the dangling link"], ops=[dict(op="rm", path="tree/sub/l2", dir_t=T0 + 913 * STEP_NS)])]))
     # D1 (known): chmod only
     out.append(dict(name="chmod-only", family="mode", pats=[], init=d(("a.txt", f()), ("sub", d(("b", f())))), steps=[
         dict(labels=["chmod"], ops=[dict(op="chmod", path="tree/sub/b", mode=0o600)]),
